@@ -591,7 +591,9 @@ class Check:
                     print("ERROR: violation of class %s (seed %d) does not reproduce in a fresh process (got %s)" % (cls, r.seed, c1[0]))
                     unreproducible += 1
                     continue
-            if len(new_violations) < 6:
+            if cls.startswith(("watchdog", "timeout")):
+                small = plan   # every replay of a hang costs the whole watchdog period: reported unminimised
+            elif len(new_violations) < 6:
                 small = minimize(binp, plan, cls, workdir, log=self.log, env_extra=self.env_extra)
             else:
                 small = plan   # many classes at once: report the rest unminimised rather than spend minutes
